@@ -39,8 +39,8 @@ func astWire(re *syntax.Regexp) string {
 }
 
 // fast-path templates and their one-node mutations (the boundary of each applicability whitelist)
-var c19Seeds = []string{`[a-z]+`, `\d+`, `\w+`, `[0-9a-f]+`, `\s+`, `[a-z]+[0-9]+`, `[a-z]+\d*x?`, `\d{1,3}[a-c]{2}`, `[ab]+[bc]+`, `[a-z]+[a-z]+[0-9]`, `\w+\s\d+`,
-	`^(foo|bar|qux)`, `^(\d+|UUID|hex32)`, `^(?:GET|POST|PUT)`, `^(ab|cd)`, `^([a-c]+|x|yz)`,
+var c19Seeds = []string{`[a-z]+`, `\d+`, `\w+`, `[0-9a-f]+`, `\s+`, `[a-z]+[0-9]+`, `[a-z]+\d*x?`, `\d{1,3}[a-c]{2}`, `[a-z]{1,2}[0-9]+`, `[a-z]{2,3}[0-9]`, `[0-9]{1,3}[a-c]`, `[ab]+[bc]+`, `[a-z]+[a-z]+[0-9]`, `\w+\s\d+`,
+	`^(foo|bar|qux)`, `^(\d+|UUID|hex32)`, `^(?:GET|POST|PUT)`, `^(get|post)`, `^(kb|mb)`, `^(ab|cd)`, `^([a-c]+|x|yz)`,
 	`^/.*\.php$`, `^api/.*\.json$`, `^.*\.txt$`, `^/.*[\w-]+\.php$`, `^prefix.*suffix$`, `^abc`, `^[a-c]x`, `^(?:ab|cd)+x`}
 
 func c19Mutants(r *RNG, p string) []string {
@@ -87,8 +87,8 @@ func checkC19(r *Report, known []Finding) {
 			}
 		}
 	}
-	if r.Tier != "thorough" && len(pats) > 260 {
-		pats = pats[:260]
+	if r.Tier != "thorough" && len(pats) > 330 {
+		pats = pats[:330]
 	}
 	alpha := []byte("ab1 ")
 	L := 4
@@ -137,7 +137,21 @@ func checkC19(r *Report, known []Finding) {
 			ll = L - 1
 		}
 		gen(nil, ll)
-		hays = append(hays, []byte("a\nb"), []byte("é1"), []byte("/x.php"), []byte("/a\n.php"), []byte("ABab"), []byte("fooe"), []byte("abe"))
+		hays = append(hays, []byte("a\nb"), []byte("é1"), []byte("/x.php"), []byte("/a\n.php"), []byte("ABab"), []byte("fooe"), []byte("abe"), []byte("abc1"), []byte("wxyz7"), []byte("1234a"))
+		// fold partners outside ASCII: k/K fold to U+212A (Kelvin sign), s/S to U+017F (long s); a case-insensitive fast path that
+		// only thinks of the two ASCII cases is wrong exactly there
+		if strings.Contains(p, "(?i") {
+			var extra [][]byte
+			for _, w := range []string{"post /x", "POST", "get", "kb", "mb", "Kb", "hex32", "suffix", "prefixsuffix", "api/x.json", "yz", "x"} {
+				for _, rp := range [][2]string{{"s", "ſ"}, {"S", "ſ"}, {"k", "\u212a"}, {"K", "\u212a"}} {
+					if strings.Contains(w, rp[0]) {
+						extra = append(extra, []byte(strings.Replace(w, rp[0], rp[1], 1)))
+					}
+				}
+				extra = append(extra, []byte(w))
+			}
+			hays = append(hays, extra...)
+		}
 		// (1) CharClassSearcher
 		isCC := nfa.IsSimpleCharClassPlus(re)
 		cases = append(cases, cs{p: p, searcher: "CharClassSearcher", op: "predicate", req: "re-ccs " + wire, got: func() string {
